@@ -144,7 +144,7 @@ Section Scanners.
     end.
 
   (* \{\{(\w+)\|([^}]+)\}\}  -> (name, default text) ; [^}] also matches newlines and { *)
-  Definition m_default (s : list A) : option ((str * list A) * nat) :=
+  Definition m_default (s : list A) : option ((str * str) * nat) :=
     match starts K_OPEN s with
     | Some r => let (w, r1) := span is_word r in
                 if nonempty w then
@@ -152,7 +152,7 @@ Section Scanners.
                   | Some r2 => let (d, r3) := span (fun c => negb (c =? RB)) r2 in
                                if nonempty d then
                                  match starts K_CLOSE r3 with
-                                 | Some _ => Some ((codes w, d), (5 + length w + length d)%nat)
+                                 | Some _ => Some ((codes w, codes d), (5 + length w + length d)%nat)
                                  | None => None
                                  end
                                else None
@@ -305,6 +305,8 @@ Definition repr_char (q : Z) (c : Z) : str :=
   else if c =? 13 then [92; 114]
   else if c =? 9 then [92; 116]
   else if (c <? 32) || (c =? 127) then [92; 120; hex_digit (c / 16); hex_digit (c mod 16)]
+  else if (57344 <=? c) && (c <=? 63743) then      (* private use: not printable, \uXXXX *)
+    [92; 117; hex_digit (c / 4096); hex_digit ((c / 256) mod 16); hex_digit ((c / 16) mod 16); hex_digit (c mod 16)]
   else [c].
 Definition py_repr (s : str) : str :=
   let has_sq := existsb (Z.eqb 39) s in
@@ -373,7 +375,25 @@ Definition apply_filter (f : str) (v : value) : str + error :=
 
 (* ------------------------------------------------------------------ *)
 (* the plain pipeline (A := Z)                                           *)
+(*                                                                      *)
+(* [legacy = false] is the code as it is now: every substituted text     *)
+(* goes through _shield ('{' -> U+E000, '}' -> U+E001), translate()      *)
+(* returns _unshield(sequence), the up-front required-variable check     *)
+(* skips variables written only inside {{#each}} bodies, and the simple  *)
+(* pass raises in strict mode.  [legacy = true] is the code before the   *)
+(* repairs 1548caf / 29cb17a (no shielding; every {{name}} of the raw    *)
+(* template is required; the simple pass only warns); it is kept for the *)
+(* ..._legacy_refuted lemmas of Examples.v.                              *)
 Definition idz (z : Z) : Z := z.
+
+Definition SH_OPEN : Z := 57344.   (* U+E000 *)
+Definition SH_CLOSE : Z := 57345.  (* U+E001 *)
+Definition sh_char (c : Z) : Z := if c =? LB then SH_OPEN else if c =? RB then SH_CLOSE else c.
+Definition ush_char (c : Z) : Z := if c =? SH_OPEN then LB else if c =? SH_CLOSE then RB else c.
+Definition shield (s : str) : str := map sh_char s.
+Definition unshield (s : str) : str := map ush_char s.
+Definition sh (legacy : bool) (s : str) : str := if legacy then s else shield s.
+Definition unsh (legacy : bool) (s : str) : str := if legacy then s else unshield s.
 
 Inductive warning :=
 | WMissing (x : str)        (* "Missing required variable: x" *)
@@ -413,21 +433,21 @@ Definition loop_context (i n : nat) (it : item) : list (str * str) :=
   end.
 Definition key_pattern (k : str) : str := K_OPEN ++ k ++ K_CLOSE.
 
-Definition loop_part (body : str) (lc : list (str * str)) : str :=
-  fold_left (fun part kv => replace_all idz part (key_pattern (fst kv)) (snd kv)) lc body.
+Definition loop_part (legacy : bool) (body : str) (lc : list (str * str)) : str :=
+  fold_left (fun part kv => replace_all idz part (key_pattern (fst kv)) (sh legacy (snd kv))) lc body.
 
-Fixpoint loop_items (body : str) (n i : nat) (items : list item) : str :=
+Fixpoint loop_items (legacy : bool) (body : str) (n i : nat) (items : list item) : str :=
   match items with
   | [] => []
-  | it :: rest => loop_part body (loop_context i n it) ++ loop_items body n (S i) rest
+  | it :: rest => loop_part legacy body (loop_context i n it) ++ loop_items legacy body n (S i) rest
   end.
 
 (* _process_loops *)
-Definition pass_each (c : ctx) (s : str) : str :=
+Definition pass_each (legacy : bool) (c : ctx) (s : str) : str :=
   subst (fun (m : str * str) _ =>
            let '(x, body) := m in
            match lookup c x with
-           | Some (VList items) => loop_items body (length items) O items
+           | Some (VList items) => loop_items legacy body (length items) O items
            | _ => []
            end)
         (scan (m_each idz) O s).
@@ -446,22 +466,37 @@ Fixpoint subst_err {M} (f : M -> str -> str + error) (ts : list (tok Z M)) : str
       end
   end.
 
-(* _process_includes; [render n] is the nested translate of a registered template *)
-Definition pass_include (render : str -> option outcome) (s : str) : str + error :=
-  subst_err (fun (n : str) _ =>
-               match render n with
-               | Some (Ok t _) => inl t              (* the nested warnings are dropped *)
-               | Some (Err e) => inr e
-               | None => inl (S_UNKNOWN ++ n ++ [93])
-               end)
-            (scan (m_include idz) O s).
+(* _process_includes; [render n] is the nested translate of a registered template.  The
+   include matches are first resolved (one nested translate per match, left to right), then
+   the text is assembled (the first nested exception wins) and - in the current code - the
+   warnings of the nested translates are appended to the caller's warnings. *)
+Definition resolve_includes {R} (render : str -> R) (s : str) : list (tok Z (str * R)) :=
+  map (fun t => match t with
+                | TLit a => TLit a
+                | TMatch n c => TMatch (n, render n) c
+                end)
+      (scan (m_include idz) O s).
+
+Definition include_cb (legacy : bool) (m : str * option outcome) (_ : str) : str + error :=
+  match snd m with
+  | Some (Ok t _) => inl (sh legacy t)
+  | Some (Err e) => inr e
+  | None => inl (S_UNKNOWN ++ fst m ++ [93])
+  end.
+Definition include_text (legacy : bool) (rs : list (tok Z (str * option outcome))) : str + error :=
+  subst_err (include_cb legacy) rs.
+Definition include_warnings (legacy : bool) (rs : list (tok Z (str * option outcome))) : list warning :=
+  if legacy then []
+  else flat_map (fun mc => match snd (fst mc) with Some (Ok _ w) => w | _ => [] end) (matches rs).
 
 (* _process_variables, first re.sub *)
-Definition pass_filtered (c : ctx) (s : str) : str + error :=
+Definition pass_filtered (legacy : bool) (c : ctx) (s : str) : str + error :=
   subst_err (fun (m : str * str) g0 =>
                let '(x, f) := m in
                match lookup c x with
-               | Some v => if is_filter f then apply_filter f v else inl (str_value v)
+               | Some v => if is_filter f then
+                             match apply_filter f v with inl r => inl (sh legacy r) | inr e => inr e end
+                           else inl (sh legacy (str_value v))
                | None => inl g0
                end)
             (scan (m_filtered idz) O s).
@@ -472,57 +507,82 @@ Definition warn_filtered (c : ctx) (s : str) : list warning :=
 
 (* the finditer loop over the string as it was BEFORE the loop; str.replace of every
    occurrence of the matched text in the string as it is NOW *)
-Definition pass_default (c : ctx) (s : str) : str :=
+Definition pass_default (legacy : bool) (c : ctx) (s : str) : str :=
   fold_left (fun res (mc : (str * str) * str) =>
                let '((x, d), g0) := mc in
                if is_filter d then res
-               else replace_all idz res g0 (match lookup c x with Some v => str_value v | None => d end))
+               else replace_all idz res g0
+                      (sh legacy (match lookup c x with Some v => str_value v | None => d end)))
             (matches (scan (m_default idz) O s)) s.
 
-Definition pass_optional (c : ctx) (s : str) : str :=
-  subst (fun (x : str) _ => match lookup c x with Some v => str_value v | None => [] end)
+Definition pass_optional (legacy : bool) (c : ctx) (s : str) : str :=
+  subst (fun (x : str) _ => sh legacy (match lookup c x with Some v => str_value v | None => [] end))
         (scan (m_optional idz) O s).
 
-Definition pass_simple (c : ctx) (s : str) : str :=
-  subst (fun (x : str) g0 => match lookup c x with Some v => str_value v | None => g0 end)
-        (scan (m_simple idz) O s).
+(* the simple pass; [raise] = strict mode of the current code: an unbound variable is
+   ValueError("Missing required variable: x") *)
+Definition pass_simple (legacy raise : bool) (c : ctx) (s : str) : str + error :=
+  subst_err (fun (x : str) g0 =>
+               match lookup c x with
+               | Some v => inl (sh legacy (str_value v))
+               | None => if raise then inr (EMissing x) else inl g0
+               end)
+            (scan (m_simple idz) O s).
 Definition warn_simple (c : ctx) (s : str) : list warning :=
   flat_map (fun mc => if bound c (fst mc) then [] else [WUnbound (fst mc)])
            (matches (scan (m_simple idz) O s)).
 
 (* mRNA._detect_codons / get_required_variables: the {{name}} occurrences of the raw sequence *)
 Definition required_vars (s : str) : list str := map fst (matches (scan (m_simple idz) O s)).
-Definition missing_vars (c : ctx) (s : str) : list str :=
-  filter (fun x => negb (bound c x)) (required_vars s).
+(* the raw sequence with every {{#each ..}}..{{/each}} block removed *)
+Definition outside_loops (s : str) : str :=
+  subst (fun (_ : str * str) _ => []) (scan (m_each idz) O s).
+Definition occurs (p s : str) : bool :=
+  match find_sub idz p s with Some _ => true | None => false end.
+Definition missing_vars (legacy : bool) (c : ctx) (s : str) : list str :=
+  filter (fun x => negb (bound c x) &&
+                   (legacy || occurs (key_pattern x) (outside_loops s)))
+         (required_vars s).
 
-Fixpoint translate (fuel : nat) (strict : bool) (T : list (str * str)) (c : ctx) (s : str) : outcome :=
+Fixpoint translate (legacy : bool) (fuel : nat) (strict : bool) (T : list (str * str)) (c : ctx) (s : str)
+  : outcome :=
   match fuel with
   | O => Err EFuel
   | S fuel' =>
-      let miss := missing_vars c s in
+      let miss := missing_vars legacy c s in
       match (if strict then miss else []) with
       | x :: _ => Err (EMissing x)
       | [] =>
           let s1 := pass_if c s in
-          let s2 := pass_each c s1 in
-          match pass_include (fun n => match lookup T n with
-                                       | Some sq => Some (translate fuel' strict T c sq)
-                                       | None => None
-                                       end) s2 with
+          let s2 := pass_each legacy c s1 in
+          let rs := resolve_includes
+                      (fun n => match lookup T n with
+                                | Some sq => Some (translate legacy fuel' strict T c sq)
+                                | None => None
+                                end) s2 in
+          match include_text legacy rs with
           | inr e => Err e
           | inl s3 =>
-              match pass_filtered c s3 with
+              match pass_filtered legacy c s3 with
               | inr e => Err e
               | inl s4 =>
-                  let s5 := pass_default c s4 in
-                  let s6 := pass_optional c s5 in
-                  Ok (pass_simple c s6)
-                     (map WMissing miss ++ warn_filtered c s3 ++ warn_simple c s6)
+                  let s5 := pass_default legacy c s4 in
+                  let s6 := pass_optional legacy c s5 in
+                  match pass_simple legacy (strict && negb legacy) c s6 with
+                  | inr e => Err e
+                  | inl s7 =>
+                      Ok (unsh legacy s7)
+                         (map WMissing miss ++ include_warnings legacy rs ++
+                          warn_filtered c s3 ++ warn_simple c s6)
+                  end
               end
           end
       end
   end.
 
-(* Ribosome(templates=T, strict=strict).synthesize(s, **c) *)
+(* Ribosome(templates=T, strict=strict).synthesize(s, **c), the code as it is now *)
 Definition render_impl (strict : bool) (T : list (str * str)) (c : ctx) (s : str) : outcome :=
-  translate (S (length T)) strict T c s.
+  translate false (S (length T)) strict T c s.
+(* ... and as it was before the repairs *)
+Definition render_legacy (strict : bool) (T : list (str * str)) (c : ctx) (s : str) : outcome :=
+  translate true (S (length T)) strict T c s.
